@@ -1,3 +1,4 @@
+import re
 from typing import Any
 from typing import List
 from typing import Optional
@@ -61,8 +62,9 @@ class ViewSection(Micheline, prim='view', args_len=4):
             raise MichelsonRuntimeError('view', 'Expected view name as first argument', view_name)
         name = view_name.get_string()
         if len(name) >= 32:
-            # TODO: also check for denied symbols
             raise MichelsonRuntimeError('view', f'Too long view name {view_name}')
+        if not re.fullmatch(r'[a-zA-Z0-9_.%@]*', name):
+            raise MichelsonRuntimeError('view', f'Forbidden character in view name {name!r}')
 
         # NOTE: Check for opcodes forbidden in views
         cls.check_code(args[3], lambda_=False)
